@@ -2,48 +2,50 @@
 from checks import util_common as uc
 import vkit
 
-LAWS = ["RoundTrip", "GrammarSound", "SetterLaw"]
 
 
 def run(tier, seed):
     q = tier == "quick"
     chk = vkit.Check("C28", tier, seed)
     uc.driver()
-    plan = [("url", 2 if q else 3), ("rel", 2 if q else 3), ("unix", 2 if q else 3)]
+    k = 2 if q else 3
     stats = {"parse_ok": 0, "parse_reject": 0, "set_joined": 0, "set_refused": 0, "set_unrepresentable": 0}
-    for base, k in plan:
-        for what in ("parse", "set"):
-            name = "C28_%s_%s" % (base, what)
-            recs, res = uc.gen(chk, "Uri", name, {"K": k, "BaseName": base, "What": what}, LAWS, need=("Change",),
-                               workers=vkit.NCPU)
-            if what == "parse":
-                pairs = [p for r in recs for p in uc.uri_parse_cases(r)]
-                cases = [c for c, _ in pairs]
-                exp = [e for _, e in pairs]
-                outs = uc.drive(cases)
-                for e in exp:
-                    stats["parse_ok" if e["st"] == "ok" else "parse_reject"] += 1
-            else:
-                pairs = [p for r in recs for p in uc.uri_set_cases(r)]
-                # distinct setter argument sets only (tuples differing in ignored tokens coincide)
-                seen, uniq = set(), []
-                for c, r in pairs:
-                    kk = vkit.json.dumps([c["fl"], c["a"]], sort_keys=True)
-                    if kk not in seen:
-                        seen.add(kk); uniq.append((c, r))
-                cases = [c for c, _ in uniq]
-                outs = uc.drive(cases)
-                exp = [uc.uri_set_expected(r, o) for (_, r), o in zip(uniq, outs)]
-                for (_, r), o in zip(uniq, outs):
-                    if r["why"] != "ok":
-                        stats["set_unrepresentable"] += 1
-                    elif isinstance(o, dict) and o.get("jn") == 1:
-                        stats["set_joined"] += 1
-                    else:
-                        stats["set_refused"] += 1
-            uc.compare(chk, name, cases, exp, outs, known=uc.uri_known, limit=6,
-                       nontrivial=lambda c: len(c.get("i", c.get("a", {}).get("pa", []))) >= 2)
-            chk.sample({"gen": name, "case": cases[len(cases) // 3], "expected": exp[len(cases) // 3]})
+    recs, res = uc.gen(chk, "Uri", "C28_gen", {"K": k, "Bases": {"url", "rel", "unix"}}, ["All"], emit=None, need=(),
+                       coverage=False, workers=vkit.NCPU)
+    if not recs:
+        raise vkit.InfraError("Uri generator printed nothing")
+    # ---- parser: every (string, flag set)
+    seen, cases, exp = set(), [], []
+    for r in recs:
+        for c, e in uc.uri_parse_cases(r["p"]):
+            kk = (bytes(c["i"]), c["fl"])
+            if kk not in seen:
+                seen.add(kk); cases.append(c); exp.append(e)
+    outs = uc.drive(cases)
+    for e in exp:
+        stats["parse_ok" if e["st"] == "ok" else "parse_reject"] += 1
+    uc.compare(chk, "C28_parse", cases, exp, outs, known=uc.uri_known, limit=6, nontrivial=lambda c: len(c["i"]) >= 2)
+    chk.sample({"gen": "parse", "case": cases[len(cases) // 3], "expected": exp[len(cases) // 3]})
+    # ---- setters: distinct argument sets only (tuples differing in ignored tokens coincide)
+    seen, uniq = set(), []
+    for r in recs:
+        for c, x in uc.uri_set_cases(r["s"]):
+            kk = vkit.json.dumps([c["fl"], c["a"]], sort_keys=True)
+            if kk not in seen:
+                seen.add(kk); uniq.append((c, x))
+    cases = [c for c, _ in uniq]
+    outs = uc.drive(cases)
+    exp = [uc.uri_set_expected(x, o) for (_, x), o in zip(uniq, outs)]
+    for (_, x), o in zip(uniq, outs):
+        if x["why"] != "ok":
+            stats["set_unrepresentable"] += 1
+        elif isinstance(o, dict) and o.get("jn") == 1:
+            stats["set_joined"] += 1
+        else:
+            stats["set_refused"] += 1
+    uc.compare(chk, "C28_set", cases, exp, outs, known=uc.uri_known, limit=6,
+               nontrivial=lambda c: sum(1 for v in c["a"].values() if v != [-1] and v != -1) >= 2)
+    chk.sample({"gen": "set", "case": cases[len(cases) // 3], "expected": exp[len(cases) // 3]})
     chk.cov["uri_stats"] = stats
     if stats["parse_ok"] < 100 or stats["parse_reject"] < 100 or stats["set_joined"] < 100:
         raise vkit.InfraError("vacuous URI corpus: %s" % stats)
